@@ -43,17 +43,17 @@ CHECKS = {
  "C01": dict(
     level="exploration", design="§5 C01",
     technique="TLA+ token-level derivation machine (Grammar.tla) enumerated by TLC (exhaustive within a step bound + simulation) and rendered with a stress set; all short byte strings over a hostile alphabet; seeded mutations; every run of the real binary validated by TLC against the Totality clauses of PipelineTrace.tla",
-    text="Bounded-exhaustive over the token model (every leftmost derivation of the Circom grammar within 8 (thorough: 10) expansion steps, two stress renderings each), deep random derivations from TLC's simulation mode, every byte string up to 3 (4) bytes over 12 hostile symbols, a hand-written stress corpus and thousands of seeded mutations, rotated over all 36 option sets; each run of the real binary under a 60 s / 4 GiB cap is accepted by PipelineTrace.tla only if it ends by itself with status 0/1 and a matching summary as last line. Exploration level: this family gives no coverage feedback and no proof of panic freedom.",
+    text="Bounded-exhaustive over the token model (every leftmost derivation of the Circom grammar within 8 (thorough: 10) expansion steps, two stress renderings each), deep random derivations from TLC's simulation mode, every byte string up to 3 (4) bytes over 12 hostile symbols, two systematic matrices (12 special callee names x 0..3 arguments x 3 instantiation forms x 3 curves; 7 callee shapes -- signals declared once, twice, once per branch, as arrays, not at all -- x 28 ways of calling it anonymously), directory arguments with symlink loops, a hand-written stress corpus and thousands of seeded mutations, rotated over all 36 option sets; each run of the real binary under a 60 s / 4 GiB cap is accepted by PipelineTrace.tla only if it ends by itself with status 0/1 and a matching summary as last line. Exploration level: this family gives no coverage feedback and no proof of panic freedom.",
     note="`Modest size` is read as <= 4 KiB; quadratic memory growth on long expressions (2.5 GB for a 1000-term sum) stays within the cap and is not judged."),
  "C02": dict(
     level="fault_enumeration", design="§5 C02",
     technique="TLA+ pipeline model with fault-injection scenarios (Pipeline.tla) checked by TLC; every scenario rendered and run through the real binary; traces validated by TLC (PipelineTrace.tla); token-level faults with the pipeline's own in-process detection as oracle",
-    text="Every assignment of {none, missing, unreadable, bad pragma, syntax fault, unresolved include} to 2 (thorough: 3) named files x {none, malformed tuple, anonymous component in an expression, duplicate parameters, duplicate definition} to their definitions x 0..2 main components is generated by TLC (whose model is checked for NoSilentFailure / CleanMeansComplete / termination), rendered with rotating fault details (4 pragma versions, invalid UTF-8 or dangling symlink, `@` at every token position, several sugar shapes) and run through the real binary at --level warning and --level error. PipelineTrace.tla accepts a run iff every fault present has an error-level diagnostic naming the right file, the status is 1, and status 0 comes with every definition analysed. Delete/duplicate(/swap) mutations at every token position are judged against what the pipeline itself detects in-process.",
+    text="Every assignment of {none, missing, unreadable, bad pragma, syntax fault, unresolved include} to 2 (thorough: 3) named files x {none, malformed tuple, anonymous component in an expression, duplicate parameters, duplicate definition} to their definitions x 0..2 main components x how the first file is handed over (by path; by path while it lies in or below a -L directory or is itself a -L argument; through its directory) is generated by TLC (whose model is checked for NoSilentFailure / CleanMeansComplete / termination), rendered with rotating fault details (4 pragma versions, invalid UTF-8 or dangling symlink, `@` at every token position, several sugar shapes) and run through the real binary at --level warning and --level error. PipelineTrace.tla accepts a run iff every fault present has an error-level diagnostic naming the right file, the status is 1, and status 0 comes with every definition analysed. Delete/duplicate(/swap) mutations at every token position are judged against what the pipeline itself detects in-process.",
     note="Default level and --level error only (an id put in --allow is hidden by request, C03); attribution of a diagnostic to a fault class by id, message stem and file."),
  "C12": dict(
     level="model_checking", design="§5 C12",
     technique="TLC-enumerated statement trees (CfgBuild.tla) rendered, parsed and lifted by the real code; the exported graph judged by the well-formedness clauses of CfgTrace.tla (path-based dominance, mirror, branch placement, targets, fan-out, index order, loop depth)",
-    text="Every function body derivable in <= 12 (thorough: 14) expansion steps -- all nestings and sequences of if / if-else / while / for with braced and bare arms, empty blocks, returns, loops first or last -- is rendered, parsed by the real parser and lifted; the exported pre-SSA and SSA graphs must satisfy each clause of the statement, evaluated in TLA+ on the exported graph itself (so any renumbering that still satisfies the statement passes). Loop depth is compared with the nesting the generator knows for each statement.",
+    text="Every function body derivable in <= 12 (thorough: 14) expansion steps -- all nestings and sequences of if / if-else / while / for with braced and bare arms, empty blocks, returns, loops first or last; bodies beginning with a loop, branch or block are rendered with their variables as parameters so that this statement starts the definition -- is rendered, parsed by the real parser and lifted; the exported pre-SSA and SSA graphs must satisfy each clause of the statement, evaluated in TLA+ on the exported graph itself (so any renumbering that still satisfies the statement passes). Loop depth is compared with the nesting the generator knows for each statement. The same TLC run evaluates an implementation-shaped model of the lifting algorithm (Lifting.tla) on every tree: its graph must satisfy the same clauses (L1) and the exported graph must equal it block by block (drift, recorded in the evidence, never an exit status).",
     note="Statements are identified in the export by the literal they carry; quick tier samples the largest size class (all smaller bodies kept)."),
  "C13": dict(
     level="model_checking", design="§5 C13",
@@ -68,7 +68,7 @@ CHECKS = {
  "C10": dict(
     level="model_checking", design="§5 C10",
     technique="TLA+ reference resolver vs the renaming machine of unique_vars.rs and the SSA version key (Scopes.tla, TLC over all scope trees); TLC-generated trees with Ref's bindings rendered and lifted by the real code, IR names / SSA def-use / CS0001-CS0002 reports compared",
-    text="TLC enumerates every scope tree within the bounds (declarations and read-write uses of {x, x_0} up to 12 (14) expansion steps and of {x, y, x_0, x_1} up to 9 (11), optional parameter, nested and sibling blocks) and prints Ref's binding for every occurrence and the expected shadowing pairs. Each tree is rendered (blocks as plain blocks, if, if/else, while, for bodies), lifted by the real code and compared: equal (name, suffix) exactly for occurrences of one declaration; after SSA every read has a definition with its (name, suffix, version); the CS0001 reports are exactly the redeclarations of visible names with the shadowed declaration (or parameter list) as secondary label; repeated parameters give CS0002; sampled trees are run through the real binary to see the warnings displayed. L1: the transcribed renaming machine is faithful for every tree.",
+    text="TLC enumerates every scope tree within the bounds (declarations and read-write uses of {x, x_0} up to 12 (14) expansion steps and of {x, y, x_0, x_1} up to 9 (11), optional parameter, nested and sibling blocks) and prints Ref's binding for every occurrence and the expected shadowing pairs. Each tree is rendered as a function or a template (blocks as plain blocks, if, if/else, while, for bodies; uses in nine syntactic positions: read-write, array index on either side of an assignment, assert, log, ternary, call argument, index of a component port on either side), lifted by the real code and compared: equal (name, suffix) exactly for occurrences of one declaration; after SSA every read has a definition with its (name, suffix, version); the CS0001 reports are exactly the redeclarations of visible names with the shadowed declaration (or parameter list) as secondary label; repeated parameters give CS0002; sampled trees are run through the real binary to see the warnings displayed. L1: the transcribed renaming machine is faithful for every tree.",
     note="Declarations carry initialisers and all uses are bound; occurrences are identified by literals."),
  "C06": dict(
     level="model_checking", design="§5 C06",
@@ -83,12 +83,12 @@ CHECKS = {
  "C08": dict(
     level="model_checking", design="§5 C08",
     technique="TLA+ alphabet of assigning / constraining statement forms with Ref's expected findings (SignalAssign.tla) enumerated by TLC; every template rendered, desugared and analysed by the real code; bijection, anchoring and secondary locations compared",
-    text="Every template of <= 4 (thorough: 6) items out of 6 assigning forms (scalar, reversed `-->`, array element in a loop, component input, tuple with `_`, anonymous call with two named `<--` inputs) and 9 constraint forms (`===`, `<==`, `==>` mentioning the assigned signals in different ways, duplicates), x 3 nestings x quadratic / non-quadratic right-hand sides x template / custom template, in rotating layouts (reversed order, two statements per line). Checked: exactly one CS0005/CS0013 per (statement, assigned signal), primary label = the statement (inside it for sugar forms), CS0005 secondaries = exactly the constraint statements mentioning the signal with the same access, nothing for custom templates or other definitions.",
-    note="Which of the two finding kinds is given is C07's business. Known finding: anonymous components inside loop bodies make the template unliftable."),
+    text="Every template of <= 4 (thorough: 6) items out of 7 assigning forms (scalar, reversed `-->`, array element in a loop, component input, port of an element of a component array in a loop, tuple with `_`, anonymous call with two named `<--` inputs) and 9 constraint forms (`===`, `<==`, `==>` mentioning the assigned signals in different ways, duplicates), x 3 nestings x quadratic / non-quadratic right-hand sides x template / custom template, in rotating layouts (reversed order, two statements per line). Checked: exactly one CS0005/CS0013 per (statement, assigned signal), primary label = the statement (inside it for sugar forms), CS0005 secondaries = exactly the constraint statements mentioning the signal with the same access, nothing for custom templates or other definitions.",
+    note="Which of the two finding kinds is given is C07's business. Anonymous components inside loop bodies made the template unliftable at the pinned commit (fixed: 3e6ee4d)."),
  "C09": dict(
     level="model_checking", design="§5 C09",
     technique="Self-composition in TLA+ (SemanticsEffects.tla): for every site flagged by CS0006/CS0007/CS0008 TLC runs the definition twice in lock step over F_3 from all inputs, replacing the value written at the site by any value, and compares the effects the statement lists",
-    text="Every statement skeleton within the bound, instantiated with locals, parameters, input / output / intermediate signals, constraints, assertions, loops and branches, is analysed by the real code; each flagged assignment or parameter becomes a site. TLC explores, per site, all valuations of parameters and input signals x all replacement values at every execution of the site, and refutes the claim if a value assigned to an input/output signal, a side of a constraint mentioning one, an assertion outcome, the return value or a branch decision differs between the two runs.",
+    text="Every nesting chain of SemChains.tla (an accumulator updated under every nesting of if / if-else arms / while of depth <= 2 (3), used afterwards in a return, `<--` or `<==`) and every statement skeleton of SemGen.tla within the bound, instantiated with locals, parameters, input / output / intermediate signals, constraints, assertions, loops and branches, is analysed by the real code; each flagged assignment or parameter becomes a site. TLC explores, per site, all valuations of parameters and input signals x all replacement values at every execution of the site, and refutes the claim if a value assigned to an input/output signal, a side of a constraint mentioning one, an assertion outcome, the return value or a branch decision differs between the two runs.",
     note="F_3; arrays / dimensions and component ports not generated yet; only flagged sites are judged."),
  "C20": dict(
     level="model_checking", design="§5 C20",
@@ -98,7 +98,7 @@ CHECKS = {
  "C04": dict(
     level="model_checking", design="§5 C04",
     technique="TLA+ character model of files (Locations.tla: byte offsets, boundaries, line/column) used by TLC to validate every label recorded from the real code (LocationsTrace.tla); terminal line:col and SARIF regions compared with positions recomputed from the original bytes; label texts compared across meaning-preserving re-renderings",
-    text="Programs from the corpora and the generators of C08 / C10 / the micro-programs, plus syntax faults, unresolved includes, unclosed comments and sugar errors, are each rendered four ways (identity, multi-byte comment lines, CRLF, block comments of C05's shapes with tabs) and run in-process and through the real binary with SARIF. TLC accepts a record only if every label of every report names a file that was read, has start <= end inside the file on character boundaries, and every observed line/column (SARIF start and end of every location) equals the one recomputed from the character model. The line:col printed on the terminal must be the start of the first primary label; the text under each label must be the same modulo white space and comments in all renderings; identifiers quoted by a primary label's message must occur under the label.",
+    text="Programs from the corpora and the generators of C08 / C10 / the micro-programs, plus syntax faults, lexical faults (characters of 1 to 4 bytes the lexer rejects, in place of a token, glued to one, at the end of the file), unresolved includes, unclosed comments and sugar errors, are each rendered four ways (identity, multi-byte comment lines, CRLF, block comments of C05's shapes with tabs) and run in-process and through the real binary with SARIF. TLC accepts a record only if every label of every report names a file that was read, has start <= end inside the file on character boundaries, and every observed line/column (SARIF start and end of every location) equals the one recomputed from the character model. The line:col printed on the terminal must be the start of the first primary label; the text under each label must be the same modulo white space and comments in all renderings; identifiers quoted by a primary label's message must occur under the label.",
     note="`Points at the construct the message is about` is checked through quoted identifiers and label shape here, and by exact statement / declaration spans in C08 and C10; SARIF results are paired with reports by (rule, message) in position order."),
  "C18": dict(
     level="model_checking", design="§5 C18",
